@@ -53,8 +53,9 @@ PROPS = {
         "assumptions": ["object member names unique within each object for the document oracle"],
     },
     "C14": {
-        "streams": [{"name": "cast", "zones": ZONES, "zones_quick": ["Europe/Paris", "America/St_Johns"]}],
-        "rule": "cast stream focused on time: RFC 3339 strings with explicit offsets -23:59..+23:59, fractional seconds, leap days, year bounds; integer seconds; time.Time values in UTC, Local and fixed zones; run under several process time zones; distinct by (target, source, zone)",
+        "streams": [{"name": "cast", "zones": ZONES, "zones_quick": ["Europe/Paris", "America/St_Johns"]},
+                    {"name": "template", "zones": ["Europe/Paris", "America/New_York", "UTC"], "zones_quick": ["Europe/Paris"]}],
+        "rule": "template stream's directed sweep under a DST zone (date-time texts with explicit offsets, incl. the hour repeated at the end of DST and year bounds, through date-time columns and string columns holding a time: same instant, same offset, fraction dropped) ++ cast stream focused on time: RFC 3339 strings with explicit offsets -23:59..+23:59, fractional seconds, leap days, year bounds; integer seconds; time.Time values in UTC, Local and fixed zones; run under several process time zones; distinct by (target, source, zone)",
         "trusted_base": TB_COMMON + ["oracle: time.Local offset function (H-zone: whole minutes, |offset| < 24h), supplied per case from the real time package under the run's TZ", "oracle: the lenient general parser of time.Parse for strings the strict RFC 3339 fast path rejects"],
         "assumptions": [],
     },
